@@ -344,6 +344,17 @@ impl Mac {
         }
     }
 
+    /// To be called when the transaction of a data uplink is abandoned because of a radio error
+    /// after the frame was handed to the radio. Consumes the uplink counter, unless the receive
+    /// procedure already did, so that a retry never reuses it for a different frame. Returns
+    /// true when the counter space is exhausted, which the caller reports as session expiry.
+    pub(crate) fn abort_uplink(&mut self, fcnt_up: FcntUp) -> bool {
+        if self.get_fcnt_up() == Some(fcnt_up) {
+            return matches!(self.rx2_complete(), Response::SessionExpired);
+        }
+        false
+    }
+
     pub(crate) fn get_session_keys(&self) -> Option<SessionKeys> {
         match &self.state {
             State::Joined(session) => session.get_session_keys(),
